@@ -292,3 +292,45 @@ func VerifC05_QuickReplyTruncation() {
 var _ = assets.NewFlowReference
 var _ = envs.NewBuilder
 var _ = triggers.NewBuilder
+
+// VerifC05_AttachmentLimit: an evaluated attachment (content type, colon,
+// URL) longer than MaxAttachmentLength (2048) is skipped with an error event
+// and never sent: content types of 9 and 40 characters, totals of 2046..2052
+// bytes with arbitrary bytes at the end.
+// cover: sent, skipped, at-limit
+func VerifC05_AttachmentLimit() {
+	ctype := []string{"image/png", "application/vnd.openxmlformats-officedoc"}[zzverif.Choice("content-type", 2)]
+	total := 2046 + zzverif.Choice("total-length", 7)
+	tail := zzverif.BytesN("url-end", 2)
+	for _, c := range tail {
+		zzverif.Assume(c > ' ' && c < 0x7f && c != '@')
+	}
+	att := ctype + ":http://x/" + strings.Repeat("a", total-len(ctype)-len(":http://x/")-len(tail)) + string(tail)
+	zzverif.Assert(len(att) == total, "setup: attachment length")
+	sa := verifNewAssets()
+	verifOneNodeFlow(sa, actions.NewSendMsg("a2", "hi", []string{att}, nil, false))
+	_, sp, err := NewBuilder().Build().NewSession(sa, verifManualTrigger(sa, verifContact(sa)))
+	zzverif.Assert(err == nil, "NewSession failed")
+	sent, errors := 0, 0
+	for _, e := range sp.Events() {
+		switch t := e.(type) {
+		case *events.MsgCreatedEvent:
+			for _, a := range t.Msg.Attachments() {
+				sent++
+				zzverif.Assert(len(a) <= flows.MaxAttachmentLength, "an attachment longer than the limit was sent")
+			}
+		case *events.ErrorEvent:
+			errors++
+		}
+	}
+	if total > flows.MaxAttachmentLength {
+		zzverif.Cover("skipped")
+		zzverif.Assert(sent == 0 && errors == 1, "an over-long attachment was not skipped with an error event")
+	} else {
+		zzverif.Cover("sent")
+		zzverif.Assert(sent == 1 && errors == 0, "an attachment within the limit was not sent")
+		if total == flows.MaxAttachmentLength {
+			zzverif.Cover("at-limit")
+		}
+	}
+}
